@@ -225,7 +225,9 @@ func (n *Node) DumpUTXO() refchain.UTXO {
 // snapshots) with the reference set and follows the purge option.
 func DiffUTXO(got, want refchain.UTXO) string { return diffUTXO(got, want, false) }
 
-func DiffNodeUTXO(got, want refchain.UTXO) string { return diffUTXO(got, want, PurgeUnspendable || PurgedByHand) }
+func DiffNodeUTXO(got, want refchain.UTXO) string {
+	return diffUTXO(got, want, PurgeUnspendable || PurgedByHand)
+}
 
 // PurgedByHand: the operator's "purge" command has been run (UnspentDB.PurgeUnspendable(true)) on a node that does not purge
 // by itself: unspendable outputs that existed then are gone, later ones are kept - either is right.
@@ -276,6 +278,7 @@ type headerFirst struct {
 	received  map[[32]byte]bool        // network.ReceivedBlocks
 	discarded map[[32]byte]bool        // network.DiscardedBlocks
 	lastHdr   uint32                   // network.LastCommitedHeader.Height
+	nBlocks   int                      // bodies accepted so far
 }
 
 func (n *Node) deliverHeaderFirst(raw []byte) DeliverResult {
@@ -360,6 +363,40 @@ func (n *Node) deliverHeaderFirst(raw []byte) DeliverResult {
 	delete(hf.toGet, hash)
 	// LocalAcceptBlock
 	bl := b2g.bl
+	hf.nBlocks++
+	if hf.nBlocks%3 == 0 {
+		// every third block takes the route of a block the client parks in its disk cache while it is busy
+		// (netBlockReceived: raw bytes and the transaction hashes are written out, the parsed block is dropped;
+		// HandleNetBlock / get_block_from_disk_cache: NewBlock, BuildTxListExt(false), hashes and BlockExtraInfo restored)
+		var hashes []byte
+		for _, tx := range bl.Txs {
+			hashes = append(hashes, tx.WTxID().Hash[:]...)
+			if tx.SegWit != nil {
+				hashes = append(hashes, tx.Hash.Hash[:]...)
+			}
+		}
+		bei := bl.BlockExtraInfo
+		trusted := bl.Trusted.Get()
+		b2, er := btc.NewBlock(append([]byte(nil), bl.Raw...))
+		if er != nil {
+			return DeliverResult{Stage: "panic", Err: "disk-cache route: NewBlock: " + er.Error()}
+		}
+		if er = b2.BuildTxListExt(false); er != nil {
+			return DeliverResult{Stage: "panic", Err: "disk-cache route: BuildTxListExt(false): " + er.Error()}
+		}
+		offs := 0
+		for _, tx := range b2.Txs {
+			copy(tx.WTxID().Hash[:], hashes[offs:])
+			offs += 32
+			if tx.SegWit != nil {
+				copy(tx.Hash.Hash[:], hashes[offs:])
+				offs += 32
+			}
+		}
+		b2.BlockExtraInfo = bei
+		b2.Trusted.Store(trusted)
+		bl = b2
+	}
 	n.Ch.Unspent.AbortWriting()
 	n.Ch.Blocks.BlockAdd(b2g.node.Height, bl)
 	bl.LastKnownHeight = hf.lastHdr
